@@ -19,6 +19,7 @@ def run(ctx):
                                              samples=[], failures=t.get("impl_failures", [])))
     ctx.oracle("o_schedules_block_diagonalize", k_schedules.oracle_schedules_bd)
     ctx.oracle("o_caller_dict", k_schedules.oracle_caller_dict)
+    ctx.oracle("o_user_products", k_schedules.oracle_user_products)
     return ctx.finish(lambda f: None)
 
 
